@@ -23,10 +23,10 @@ CHECK_DEADLOCK FALSE
 
 # (spec module, mode, extra args, shards, events)
 PLANS = {
-    "C06": dict(quick=[("SearchTrace", "sweep", ["-k", "80"], 12, 2600), ("SearchTrace", "ucigo", [], 4, 120)],
-                thorough=[("SearchTrace", "sweep", ["-k", "600"], 12, 30000), ("SearchTrace", "ucigo", [], 4, 1500)]),
-    "C07": dict(quick=[("SearchTrace", "pv", ["-depth", "8"], 13, 1300), ("SearchTrace", "sweep", ["-k", "40"], 3, 1500)],
-                thorough=[("SearchTrace", "pv", ["-depth", "9"], 13, 14000), ("SearchTrace", "sweep", ["-k", "200"], 3, 15000)]),
+    "C06": dict(quick=[("SearchTrace", "sweep", ["-k", "80"], 11, 2600), ("SearchTrace", "ucigo", [], 3, 120), ("SearchTrace", "collide", [], 2, 1500)],
+                thorough=[("SearchTrace", "sweep", ["-k", "600"], 11, 30000), ("SearchTrace", "ucigo", [], 3, 1500), ("SearchTrace", "collide", [], 2, 15000)]),
+    "C07": dict(quick=[("SearchTrace", "pv", ["-depth", "8"], 12, 1300), ("SearchTrace", "sweep", ["-k", "40"], 2, 1500), ("SearchTrace", "collide", [], 2, 1500)],
+                thorough=[("SearchTrace", "pv", ["-depth", "9"], 12, 14000), ("SearchTrace", "sweep", ["-k", "200"], 2, 15000), ("SearchTrace", "collide", [], 2, 15000)]),
     "C08": dict(quick=[("ReproTrace", "games", ["-plies", "20"], 11, 700), ("SearchTrace", "sweep", ["-k", "120"], 3, 2000), ("SearchTrace", "limits", [], 2, 1500)],
                 thorough=[("ReproTrace", "games", ["-plies", "60"], 11, 8000), ("SearchTrace", "sweep", ["-k", "1500"], 3, 25000), ("SearchTrace", "limits", [], 2, 20000)]),
 }
